@@ -48,6 +48,38 @@ func (r *AnthropicRequest) Validate() error {
 		return fmt.Errorf("top_k must be non-negative, got %d", *r.TopK)
 	}
 
+	for i, msg := range r.Messages {
+		if err := msg.validate(i); err != nil {
+			return err
+		}
+	}
+
+	return nil
+}
+
+// validate rejects what the conversion would otherwise forward as is or drop without a trace:
+// a role other than user / assistant, and a tool_use block without id or name (its tool_result
+// would reach the backend without the call it answers)
+func (m *AnthropicMessage) validate(index int) error {
+	if m.Role != "user" && m.Role != "assistant" {
+		return fmt.Errorf("messages.%d.role must be \"user\" or \"assistant\", got %q", index, m.Role)
+	}
+	blocks, ok := m.Content.([]interface{})
+	if !ok {
+		return nil
+	}
+	for j, b := range blocks {
+		block, ok := b.(map[string]interface{})
+		if !ok || block["type"] != "tool_use" {
+			continue
+		}
+		if id, _ := block["id"].(string); id == "" {
+			return fmt.Errorf("messages.%d.content.%d: tool_use block requires an id", index, j)
+		}
+		if name, _ := block["name"].(string); name == "" {
+			return fmt.Errorf("messages.%d.content.%d: tool_use block requires a name", index, j)
+		}
+	}
 	return nil
 }
 
